@@ -560,6 +560,19 @@ func (g *mgen) stmt(f *mfile, sc *scope, allowExport bool) {
 			}
 		}
 		g.note("wrap:bound-coercion")
+	case k == 88 && !f.pure: // uses of a top-level var through a nested redeclaration (C04-B, fixed by ae718d6) and nested assignments (0bc1420)
+		n := g.name(f, "v")
+		add("var " + n + " = " + r.Pick([]string{"1", "[1, 2]", "\"s\""}) + ";")
+		switch r.Intn(3) {
+		case 0:
+			add("{ var " + n + "; $p(" + g.id(f) + ", " + n + "); }")
+		case 1:
+			add("if (true) { var " + n + "; $p(" + g.id(f) + ", typeof " + n + "); }")
+		default:
+			add("{ var " + n + " = " + r.Pick([]string{"\"a\"", "[" + g.hidden(f) + "]", "null"}) + "; }")
+			add("$p(" + g.id(f) + ", typeof " + n + ");")
+		}
+		g.note("wrap:nested-var-redeclare")
 	case k < 90: // global getter: must never be dropped when referenced outside typeof
 		gn := fmt.Sprintf("gg%d_%d", g.caseNo, g.probe+1)
 		add("Object.defineProperty(globalThis, \"" + gn + "\", { get() { return $p(" + g.id(f) + "); }, configurable: true });")
